@@ -479,7 +479,12 @@ class Engine:
         if p.kind in ('node', 'map', 'list', 'pset'):
             if result or refs is None or p.kw.get('symbolic_ref'):
                 r = run.fresh('r_' + name, sym.I)
-                if not p.kw.get('maybe_fresh'):
+                if p.kw.get('fresh'):
+                    # an object the callee created (its contract proves `not alive(result)`): identity below every earlier one
+                    floor = getattr(run, 'floor', z3.IntVal(-1000000))
+                    run.assume(r < floor)
+                    run.floor = r
+                elif not p.kw.get('maybe_fresh'):
                     run.assume(r > 0)
                 else:
                     # an object that existed when the call was made, or one the callee created (identities below -10^6,
@@ -607,6 +612,12 @@ class Engine:
             for d_name, d in zip([x.arg for x in a.kwonlyargs], a.kw_defaults):
                 if d_name not in fr.loc and d is not None:
                     fr.loc[d_name] = it.ev_default(d, fr)
+            if c.opts.get('bind_defaults', True):
+                # parameters the contract does not mention take the default written in the source (read on every run)
+                posn = [x.arg for x in a.posonlyargs + a.args]
+                for d_name, d in zip(posn[len(posn) - len(a.defaults):], a.defaults):
+                    if d_name not in fr.loc and d_name not in [p.name for p in c.params]:
+                        fr.loc[d_name] = it.ev_default(d, fr)
         else:
             it.bind(a, pos, kw, fr, fi.node, fi)
         if a.kwarg and a.kwarg.arg in args:
@@ -621,6 +632,12 @@ class Engine:
             run.heap.put_l(r, ListT.empty())
             fr.yields = r
             it.spec_extra['yields'] = r
+            fr.yparts = []
+            for j in range(2):
+                pr = run.alloc('list')
+                run.heap.put_l(pr, ListT.empty())
+                fr.yparts.append(pr)
+                it.spec_extra[f'yields{j}'] = pr
         if c.opts.get('setup'):
             c.opts['setup'](it, fr, sc)
         it.top_frame = fr
@@ -704,7 +721,8 @@ class Engine:
                 continue
             sc.cur_event = (tag, pc, kw)
             goal = g(sc, kw)
-            run.obls.append(Obl(f'dominance:{tag}@{kw.get("lineno")}', 'dominance', pc, goal, self.cur_key, kw.get('lineno'), props=c.props))
+            # an event tag that names properties (e.g. 'C05.prefix') scopes its obligation to those properties
+            run.obls.append(Obl(f'dominance:{tag}@{kw.get("lineno")}', 'dominance', pc, goal, self.cur_key, kw.get('lineno'), props=_props_of(tag) or c.props))
 
     def check_raise(self, it, run, c, exc):
         sc = it.spec_ctx(exc=exc)
